@@ -59,6 +59,7 @@ func NewQueryStore(st *Store, iq func(qs *QueryStore, q url.Values) (*IndexQuery
 		tq: taskqueue.NewTaskQueue(taskCapacity),
 		iq: iq,
 	}
+	simSetup(&qs)
 	st.OnChange(qs.handleChange)
 	return &qs
 }
